@@ -29,7 +29,7 @@ def run(v, tier):
         v.fail(key, f"after calls {[c['m'] for c in t['calls'][:line]]} (phase {t['phase']}): clause {clause} at call {line} ({ev['m']})",
                {'family': 'gen', 'case': {'phase': t['phase'], 'calls': t['calls'], 'clause': clause, 'line': line}})
     # deep random behaviours of the same model (TLC simulation), replayed and validated the same way
-    deep = gen.explore(v, 'C04', 'c04-simulate', 12 if quick else 16, simulate=(150 if quick else 2000, pi2v.SEED + 1))
+    deep = gen.explore(v, 'C04', 'c04-simulate', 12 if quick else 14, simulate=(60 if quick else 250, pi2v.SEED + 1))
     dtraces = gen.replay_sequences(deep)
     if dtraces:
         v.sample({'deep_behaviour': [c['m'] for c in dtraces[0]['calls']]})
